@@ -38,6 +38,14 @@ DefA  == [s \in SnapA |->
 ChainA == {"N", "B"}
 HeadA  == [c \in ChainA |-> IF c = "N" THEN -1 ELSE 1]
 
+\* Scenario M: a mint X on chain A, deposit Y on chain B.
+SnapM == {"X", "Y"}
+DefM  == [s \in SnapM |->
+            CASE s = "X" -> D("A", "mint", FALSE, 1, {})
+              [] s = "Y" -> D("B", "deposit", FALSE, 1, {})]
+ChainM == {"A", "B"}
+HeadM  == [c \in ChainM |-> 1]
+
 \* Scenario T: ordinary traffic only: transfer X opening round 2 of A after deposit W, deposit Y on B.
 SnapT == {"W", "X", "Y"}
 DefT  == [s \in SnapT |->
